@@ -10,13 +10,13 @@ namespace DD
 
 /-- `vars` and `_level_to_var` are mutually inverse bijections between the declared names and
 the levels `0 .. nvars-1` -/
-structure VarsOK (t : Tbl) : Prop where
+structure VarsBij (t : Tbl) : Prop where
   v2l : ∀ (v : String) (i : Nat), t.vars[v]? = some i → t.l2v[i]? = some v
   l2v : ∀ (i : Nat) (v : String), t.l2v[i]? = some v → t.vars[v]? = some i
   lt : ∀ (v : String) (i : Nat), t.vars[v]? = some i → i < t.nvars
   onto : ∀ (i : Nat), i < t.nvars → ∃ v : String, t.vars[v]? = some i
 
-theorem VarsOK.inj {t : Tbl} (h : VarsOK t) {v v' : String} {i : Nat}
+theorem VarsBij.inj {t : Tbl} (h : VarsBij t) {v v' : String} {i : Nat}
     (h1 : t.vars[v]? = some i) (h2 : t.vars[v']? = some i) : v = v' := by
   have a := h.v2l _ _ h1
   have b := h.v2l _ _ h2
@@ -178,7 +178,7 @@ theorem renameMap_ok (t : Tbl) (dvars : List (String × String))
   rw [← this, hl]
   simp [lvlOf, hl]
 
-theorem renameMap_lookup (t : Tbl) (hV : VarsOK t) (dvars : List (String × String))
+theorem renameMap_lookup (t : Tbl) (hV : VarsBij t) (dvars : List (String × String))
     (i : Nat) (v : String) (hv : t.vars[v]? = some i) :
     (t.vars.toList.map fun vl => (vl.2, lvlOf t (tgtName dvars vl.1))).lookup i =
       some (lvlOf t (tgtName dvars v)) := by
@@ -189,7 +189,7 @@ theorem renameMap_lookup (t : Tbl) (hV : VarsOK t) (dvars : List (String × Stri
 
 /-- `BDD.rename(u, dvars)` (names to names; any map, injective or not): the result denotes `u`
 with every level read at the level of its target name -/
-theorem rename_spec (m : Mgr) (hI : Inv m) (hoff : m.lastLen = none) (hV : VarsOK m.tbl)
+theorem rename_spec (m : Mgr) (hI : Inv m) (hoff : m.lastLen = none) (hV : VarsBij m.tbl)
     (u : Int) (hu : m.tbl.Mem u) (dvars : List (String × String))
     (hd : ∀ p, p ∈ dvars → m.tbl.vars.contains p.2 = true) :
     ∃ r m', rename u dvars m = (.ok r, m') ∧ Inv m' ∧ Ext m.tbl m'.tbl ∧ m'.tbl.Mem r ∧
@@ -274,7 +274,7 @@ def nameAsg (t : Tbl) (a : String → Bool) : Asg := fun i =>
   | some v => a v
   | none => false
 
-def denN (t : Tbl) (u : Int) (a : String → Bool) : Bool := den t u (nameAsg t a)
+def denName (t : Tbl) (u : Int) (a : String → Bool) : Bool := den t u (nameAsg t a)
 
 theorem lookup_filterMap_unique (g : String → Option Nat) (v : String) (i j : Nat)
     (hg : g v = some j) :
@@ -307,11 +307,11 @@ theorem lookup_filterMap_unique (g : String → Option Nat) (v : String) (i j : 
 /-- `copy_bdd(u, from_bdd, to_bdd)`: `s` is the source table (only read), `m` the target
 manager; every variable of the support of `u` is declared in the target.  The copy denotes the
 same function of the variable names; the target keeps its invariant and only gains nodes. -/
-theorem copyBdd_spec (s : Tbl) (hS : WF s) (hVs : VarsOK s) (m : Mgr) (hI : Inv m)
-    (hoff : m.lastLen = none) (hVm : VarsOK m.tbl) (u : Int) (hu : s.Mem u)
+theorem copyBdd_spec (s : Tbl) (hS : WF s) (hVs : VarsBij s) (m : Mgr) (hI : Inv m)
+    (hoff : m.lastLen = none) (hVm : VarsBij m.tbl) (u : Int) (hu : s.Mem u)
     (hsup : ∀ i v, InSupp s u i → s.l2v[i]? = some v → m.tbl.vars.contains v = true) :
     ∃ r m', copyBdd s u m = (.ok r, m') ∧ Inv m' ∧ Ext m.tbl m'.tbl ∧ m'.tbl.Mem r ∧
-      Frame m m' ∧ (0 < r ↔ 0 < u) ∧ denN m'.tbl r = denN s u := by
+      Frame m m' ∧ (0 < r ↔ 0 < u) ∧ denName m'.tbl r = denName s u := by
   have hI0 : Inv { m with ctx := true } := hI.setCtx true
   have htbl : ({ m with ctx := true } : Mgr).tbl = m.tbl := rfl
   -- the level map, on the support
